@@ -10,6 +10,10 @@ import (
 
 	"github.com/goatcms/goatcore/filesystem"
 	"github.com/goatcms/goatcore/filesystem/filespace/diskfs"
+	"github.com/goatcms/goatcore/filesystem/filespace/encryptfs"
+	"github.com/goatcms/goatcore/filesystem/filespace/encryptfs/cipherfs"
+	"github.com/goatcms/goatcore/filesystem/filespace/encryptfs/cipherfs/aesgcm256cfs"
+	"github.com/goatcms/goatcore/filesystem/filespace/encryptfs/cipherfs/extcfs"
 	"github.com/goatcms/goatcore/filesystem/filespace/memfs"
 )
 
@@ -140,6 +144,20 @@ func NewBackend(kind string, tmp string) (*Backend, error) {
 	switch kind {
 	case "mem":
 		fs, err := memfs.NewFilespace()
+		if err != nil {
+			return nil, err
+		}
+		return &Backend{Kind: kind, FS: fs, Outside: func() string { return "" }, Cleanup: func() {}}, nil
+	case "crypt", "cryptx":
+		base, err := memfs.NewFilespace()
+		if err != nil {
+			return nil, err
+		}
+		var c cipherfs.Cipher = aesgcm256cfs.NewCipher()
+		if kind == "cryptx" {
+			c = extcfs.NewDefaultCipher()
+		}
+		fs, err := encryptfs.NewEncryptFS(base, encryptfs.Settings{Salt: []byte("salt"), Secret: []byte("secret"), Cipher: c})
 		if err != nil {
 			return nil, err
 		}
